@@ -16,10 +16,14 @@ from checks import faults as F
 PROP = "C09"
 THEOREMS = {"Proofs.Props.C09": ["MsPack.Szdd.C09_szdd_ledger_restored", "MsPack.Szdd.C09_szdd_nothing_left"],
             "Proofs.Props.C09Kwaj": ["MsPack.Kwaj.C09_kwaj_ledger_restored", "MsPack.Kwaj.C09_kwaj_nothing_left"],
-            "Proofs.Props.C09Oab": ["MsPack.Oab.C09_oab_ledger_restored", "MsPack.Oab.C09_oab_nothing_left"]}
+            "Proofs.Props.C09Oab": ["MsPack.Oab.C09_oab_ledger_restored", "MsPack.Oab.C09_oab_nothing_left"],
+            "Proofs.Props.C09Chm": ["MsPack.Chm.C09_chm_ledger_restored", "MsPack.Chm.C09_chm_nothing_left", "MsPack.Chm.C09_chm_session_owns"],
+            "Proofs.Props.C09Cab": ["MsPack.Cab.C09_cab_ledger_restored", "MsPack.Cab.C09_cab_nothing_left", "MsPack.Cab.C09_cab_session_invariant"]}
 LEVEL = "proof"
 ASSUMPTIONS = ["the effect models (lean/MsPack/Szdd/Api.lean, lean/MsPack/Kwaj/Api.lean, lean/MsPack/Oab/Api.lean over lean/MsPack/Sys.lean) are tied to szddd.c + lzssd.c + kwajd.c + oabd.c (with the allocation skeleton of lzxd_init/lzxd_free/lzxd_set_reference_data) by replaying every szdd, kwaj and oab scenario, fault-free and under every enumerated fault, on `mspack-driver --sys` and comparing all result lines and the final ledger line with the harness (kwaj methods 3 and 4 and OAB files with an LZX block are answered `unsupported` by the effect-model driver: the bit-level decoders enter the theorems through the frame law)",
-               "the theorems cover the SZDD and KWAJ decompressors' APIs (create/open/extract/decompress/close/destroy incl. lzss_decompress, the KWAJ header allocations and the allocation skeletons of lzh_init/lzh_free, mszipd_init/mszipd_free); KWAJ's LZH and MSZIP and OAB's LZX decoder bodies are a hypothesis (`Decoders.Lawful` / `Lawful`: they only read and write on the two handles they are given); the OAB theorems cover decompress and decompress_incremental incl. copy_fh, the LZX set-up and tear-down on every exit path; CAB and CHM are covered by fault enumeration on the implementation only",
+               "the theorems cover the SZDD and KWAJ decompressors' APIs (create/open/extract/decompress/close/destroy incl. lzss_decompress, the KWAJ header allocations and the allocation skeletons of lzh_init/lzh_free, mszipd_init/mszipd_free); KWAJ's LZH and MSZIP and OAB's LZX decoder bodies are a hypothesis (`Decoders.Lawful` / `Lawful`: they only read and write on the two handles they are given); the OAB theorems cover decompress and decompress_incremental incl. copy_fh, the LZX set-up and tear-down on every exit path; "
+               "the CHM and CAB effect models (lean/MsPack/Chm/Api.lean, lean/MsPack/Cab/Api.lean) model every system call of the whole APIs (open/fast_open/search/close/append/prepend/extract/fast_find, the decoder caches, the chunk cache) in order with the C's failure reactions, but the memory-only parsing that decides how many calls follow is an abstract parameter (`Parse`, the scanner script, a few Booleans): "
+               "the theorems hold for every value of it; these two models are not replayed by the driver (no --sys for them), their tie to the C is the reading of the code plus the fault enumeration below; the CAB theorem assumes the client discipline that rules out the known findings D25/D26 (of two cabinets joined at least one is a single set)",
                "the instrumented mspack_system of the harness is the reference for 'released exactly once'"]
 RULE = ("scenarios = complete API sessions (open/search/join/extract/fast_find/decompress, then close + destroy) over generated well-formed and malformed archives of all five formats and two fixtures; "
         "for each: the fault-free run plus single faults (kind x call index; write faults as error or short write); non-trivial = a run in which the planned fault actually fired or the fault-free run; "
@@ -46,9 +50,27 @@ def judge_run(meta, blocks):
 def generate(ctx):
     return []
 
+def join_search_lists(ctx):
+    """joins among the cabinets search() returns (one file holding several cabinets): two members of one `next` list,
+    the heads of two lists, a list member with a cabinet from open() - then the documented close of each list head.
+    (Found while proving the CAB effect model: cabd_close owns a list through `next` and a set through
+    prevcab/nextcab, and has no provision for a cabinet that is in both.)"""
+    from lib import minicab
+    cab, _ = minicab.build([(0, [(b"hello world", 11)])], [dict(name=b"a.txt", length=11, offset=0, folder=0)])
+    two = cab + cab; three = cab + b"pad" + cab + cab
+    F2 = [f"file two.cab {two.hex()}", f"file three.cab {three.hex()}", f"file one.cab {cab.hex()}", "new cab"]
+    out = []
+    out.append((F2 + ["search i0 two.cab", "append i0 h0 h1", "close i0 h0", "destroy i0"], dict(family="cab.join-search-siblings", how="directed", kind="cab", shape="siblings", nofaults=True)))
+    out.append((F2 + ["search i0 three.cab", "append i0 h1 h2", "close i0 h0", "destroy i0"], dict(family="cab.join-search-siblings", how="directed", kind="cab", shape="later-siblings", nofaults=True)))
+    out.append((F2 + ["search i0 two.cab", "search i0 two.cab", "append i0 h0 h2", "close i0 h0", "destroy i0"], dict(family="cab.join-search-heads", how="directed", kind="cab", shape="heads", nofaults=True)))
+    # controls that the ownership rules do cover: a search head with an opened cabinet, an opened cabinet with a head
+    out.append((F2 + ["search i0 one.cab", "open i0 one.cab", "append i0 h0 h1", "close i0 h0", "destroy i0"], dict(family="cab.join-search-open", how="directed", kind="cab", shape="head+open")))
+    out.append((F2 + ["open i0 one.cab", "search i0 one.cab", "append i0 h0 h1", "close i0 h0", "destroy i0"], dict(family="cab.join-search-open", how="directed", kind="cab", shape="open+head")))
+    return out
+
 def custom_run(ctx, res, cw):
     n = 25 if ctx.tier == "quick" else 150
-    base = F.scenarios(ctx, n)
+    base = F.scenarios(ctx, n) + join_search_lists(ctx)
     for lines, meta in base:
         cw.add(["edges on"] + lines, meta)
     prof = F.profile(ctx, list(cw.paths))
@@ -62,6 +84,7 @@ def custom_run(ctx, res, cw):
         for f in judge_run(meta, blocks):
             (viol if f.kind == "violation" else mism).append((p, meta, f))
         lines = [l for l in open(p).read().splitlines() if l != "edges on"]
+        if meta.get("nofaults"): continue
         for (kind, k, mode) in F.fault_points(ctx, tot, exhaustive=meta.get("exhaustive", False)):
             fl = f"fault {kind} {k}" + (f" {mode}" if mode else "")
             cw.add([fl] + lines, dict(meta, fault=fl, base=os.path.basename(p)))
@@ -80,9 +103,9 @@ def custom_run(ctx, res, cw):
             (viol if f.kind == "violation" else mism).append((p, meta, f))
     # correspondence of the effect model the theorems are about: every szdd run, with and without faults
     # (oab: the effect model treats a planned write as a total failure, the harness's `short` mode accepts half the
-    #  bytes - same status and ledger, different byte counts - so short-write runs of oab are left out)
-    szp = [p for p in cw.paths if cw.meta[p].get("kind") in ("szdd", "kwaj") or
-           (cw.meta[p].get("kind") == "oab" and not str(cw.meta[p].get("fault", "")).endswith("short"))]
+    #  bytes - same status and ledger, different byte counts - so short-write runs of oab and kwaj (whose copy loop and decoders write several bytes per call) are left out)
+    szp = [p for p in cw.paths if cw.meta[p].get("kind") == "szdd" or
+           (cw.meta[p].get("kind") in ("kwaj", "oab") and not str(cw.meta[p].get("fault", "")).endswith("short"))]
     mout = C.run_tool(os.path.join(C.LEAN, ".lake/build/bin/mspack-driver"), szp, args=("--sys",))
     agree = 0; skipped = 0
     for p in szp:
@@ -103,4 +126,7 @@ def custom_run(ctx, res, cw):
     return viol, mism
 
 def classify(ctx, meta, finding):
+    t = finding.text
+    if meta.get("family") == "cab.join-search-siblings" and "CRASH" in t and "cabd_close" in t and not meta.get("fault"): return "D25"
+    if meta.get("family") == "cab.join-search-heads" and "allocations" in t and "still live" in t and not meta.get("fault"): return "D26"
     return None
